@@ -8,7 +8,8 @@ generic version and the matching copy with the same arguments and reports both r
 is compiled by the real pipeline (check, monomorphisation, HUGR lowering) and run on the selene
 emulator.  Required: every pair of reports is equal.  The family covers type parameters (copyable
 and not), nat parameters used in types and as values, bool const parameters (which force
-monomorphisation), @comptime arguments, generic structs, generic-calls-generic composition, and
+monomorphisation), @comptime arguments, generic structs, generic-calls-generic composition, a dependent @comptime parameter
+forwarded through two generic functions (T := nat / int / float), and
 partial specialisation (a generic caller passing its own type variable on while fixing a comptime
 argument).
 """
@@ -57,6 +58,8 @@ FAMILY = [
      [("i", {"T": "int", "TA": ""}, "{N}_Box(5, 1)", ["r"]), ("f", {"T": "float", "TA": ""}, "{N}_Box(2.5, 1)", ["int(r * 2.0)"])]),
     ("natval", "@guppy\ndef {N}{P}(xs: array[int, {n}] @owned, ys: array[int, {m}] @owned) -> int:\n    s = 0\n    for x in xs:\n        s += x\n    for y in ys:\n        s -= y\n    return {n} * 1000 + {m} * 100 + s\n", {"P": "[n: nat, m: nat]", "n": "n", "m": "m"},
      [("23", {"n": "2", "m": "3"}, "array(1, 2), array(3, 4, 5)", ["r"]), ("31", {"n": "3", "m": "1"}, "array(1, 2, 6), array(4)", ["r"])]),
+    ("dep", "@guppy\ndef {N}_inner{P}(t: {T}, x: {T} @comptime) -> {T}:\n    return x\n@guppy\ndef {N}{P}(t: {T}, x: {T} @comptime) -> {T}:\n    return {N}_inner(t, x)\n", {"P": "[T: (Copy, Drop)]", "T": "T"},
+     [("n", {"T": "nat"}, "nat(1), 5", ["int(r)"]), ("i", {"T": "int"}, "-1, 6", ["r"]), ("f", {"T": "float"}, "0.5, 2.5", ["int(r * 2.0)"])]),
 ]
 
 def instantiate(tpl, name, binding):
